@@ -3,9 +3,9 @@
 //@ kind W
 //@ def quick NEL=3 NATTR=2
 //@ def thorough NEL=3 NATTR=2
-//@ cbmc all --unwind 5 --unwindset DOMNodeImpl_getElementAncestor.0:4,DOMNodeImpl_lookupNamespaceURI.0:3,DOMNodeImpl_lookupPrefix2.0:3,ND_getAttributeNodeNS.0:3,spec_lookupNamespaceURI.0:3,spec_lookupNamespaceURI.1:4,spec_lookupPrefix.0:3,spec_lookupPrefix.1:4,spec_isDefaultNamespace.0:3,spec_isDefaultNamespace.1:4,run_x.0:9,run_x.1:12 --unwinding-assertions
+//@ cbmc all --unwind 5 --unwindset DOMNodeImpl_getElementAncestor.0:4,DOMNodeImpl_lookupNamespaceURI.0:2,DOMNodeImpl_lookupPrefix2.0:2,ND_getAttributeNodeNS.0:3,spec_lookupNamespaceURI.0:3,spec_lookupNamespaceURI.1:4,spec_lookupPrefix.0:3,spec_lookupPrefix.1:4,spec_isDefaultNamespace.0:3,spec_isDefaultNamespace.1:4,run_x.0:9,run_x.1:12 --unwinding-assertions
 //@ entry h_lookupns
-//@ note W: complete for harness trees document -> chain of <= NEL elements (an entity-reference node optionally between the first two) with <= NATTR attributes each, every namespace / prefix / local name / value over 7 string ids, started at the document, any element, any attribute, or a further node of any other type hung under the document, an element, an attribute or nothing; recursion (ancestor->lookupXxx) and the attribute loops fully unwound
+//@ note W: complete for harness trees document -> chain of <= NEL elements with <= NATTR attributes each, every namespace / prefix / local name / value over 7 string ids, started at the document, any element, any attribute, or a further node of any other type hung under the document, an element, an entity reference below the root element (an ancestor that is no element is skipped), an attribute or nothing; every call is made with concrete links and node types (only names, namespaces, values, depth and attribute counts are symbolic) so that the node-type switches are decided during symbolic execution; recursion (ancestor->lookupXxx) and the attribute loops fully unwound
 //@ note stubs (contracts/dom_tree.inc): getParentNode, getNodeType, getNamespaceURI, getPrefix, getLocalName, getNodeName, getNodeValue, hasAttributes, getAttributes/getLength/item, getDocumentElement, getAttributeNodeNS are accessors of the harness tree; strings are ids (equal iff same id; null and "" equal for XMLString::equals); getContainingNode() is the node itself, fOwnerNode its owner field; the virtual lookupXxx of every node class forwards to DOMNodeImpl (checked by reading dom/impl/*.cpp), so virtual calls become calls of the extracted functions
 //@ note assumptions on the tree (what DOM Level 2 createElementNS / setAttributeNS guarantee): namespace ids are null or non-empty; prefixes and local names are never ""; an attribute in the xmlns namespace is either `xmlns` (no prefix, local name xmlns) or `xmlns:p` (prefix xmlns, local name p not xmlns); attributes of one element have distinct (namespace, local name); xmlns:p="" (prefix un-declaration, illegal in Namespaces 1.0) does not occur
 //@ note spec: DOM Level 3 Core, Appendix B.2 (lookupNamespacePrefix), B.3 (isDefaultNamespace), B.4 (lookupNamespaceURI) written as loops over the chain of ancestor elements
@@ -84,7 +84,7 @@ sub XMLString::equals\( => ST_equals(
 
 /* ---- the harness tree ---- */
 struct { DOMNode doc, el[NEL], at[NEL][NATTR], ref, x; } T;
-XMLSize_t DEPTH; _Bool VIA_REF;
+XMLSize_t DEPTH;
 
 /* ---- spec: DOM Level 3 Core Appendix B over the chain el[k], el[k-1], .., el[0] (ids; 0 = null) ---- */
 static int eq_ne(unsigned char a, unsigned char b) { return a == b || ((a == 0 || a == ID_EMPTY) && (b == 0 || b == ID_EMPTY)); }
@@ -179,7 +179,7 @@ static void run_x(int xt, int xp, int which, unsigned char arg)
 void h_lookupns(void)
 {
   unsigned char arg; int start, which, xt, xp;
-  VERIF_INPUT(T); VERIF_INPUT(DEPTH); VERIF_INPUT(VIA_REF); VERIF_INPUT(arg); VERIF_INPUT(start); VERIF_INPUT(which); VERIF_INPUT(xt); VERIF_INPUT(xp);
+  VERIF_INPUT(T); VERIF_INPUT(DEPTH); VERIF_INPUT(arg); VERIF_INPUT(start); VERIF_INPUT(which); VERIF_INPUT(xt); VERIF_INPUT(xp);
   VERIF_ASSUME(DEPTH <= NEL && arg < NSTR);
   /* build the links; the string fields stay arbitrary within the DOM Level 2 constraints */
   T.doc.type = DOMNode_DOCUMENT_NODE; T.doc.parent = 0; T.doc.owner = 0; T.doc.docElem = &T.el[0]; DOC_EMPTY = (DEPTH == 0); T.doc.nattr = 0;
@@ -187,7 +187,7 @@ void h_lookupns(void)
   for (int e = 0; e < NEL; e++) {
     DOMNode *el = &T.el[e];
     el->type = DOMNode_ELEMENT_NODE; el->owner = &T.doc; el->docElem = 0;
-    el->parent = (e == 0) ? &T.doc : (e == 1 && VIA_REF) ? &T.ref : &T.el[e - 1];
+    el->parent = (e == 0) ? &T.doc : &T.el[e - 1];
     VERIF_ASSUME(el->nattr <= NATTR && el->ns < NSTR && el->ns != ID_EMPTY && el->prefix < NSTR && el->prefix != ID_EMPTY);
     VERIF_ASSUME(el->prefix == 0 || el->ns != 0);          /* NAMESPACE_ERR otherwise (createElementNS) */
     for (int j = 0; j < NATTR; j++) {
